@@ -161,7 +161,7 @@ func runOneLeftovers(c loCase) (sx.V, sx.V, loCase, error) {
 	cl := plugin.NewClient(cfg)
 	rpcc, err := cl.Client()
 	if err != nil {
-		cl.Kill()
+		boundedKill(cl)
 		return nil, nil, c, fmt.Errorf("client: %w", err)
 	}
 	afterStart := all()
@@ -177,12 +177,12 @@ func runOneLeftovers(c loCase) (sx.V, sx.V, loCase, error) {
 	for i := 0; i < c.Dispenses; i++ {
 		raw, err := rpcc.Dispense("vp")
 		if err != nil {
-			cl.Kill()
+			boundedKill(cl)
 			return nil, nil, c, fmt.Errorf("dispense: %w", err)
 		}
-		callers = append(callers, raw.(vp.Caller))
+		callers = append(callers, bounded(raw.(vp.Caller)))
 		if out, err := callers[i].Call(vp.Req{Op: "tag"}); err != nil || out.S != "set-1" {
-			cl.Kill()
+			boundedKill(cl)
 			return nil, nil, c, fmt.Errorf("tag: %v %q", err, out.S)
 		}
 	}
@@ -199,7 +199,7 @@ func runOneLeftovers(c loCase) (sx.V, sx.V, loCase, error) {
 		caller.Call(vp.Req{Op: "write", K: "stderr", Data: data})
 	}
 	fail := func(what string, e error) (sx.V, sx.V, loCase, error) {
-		cl.Kill()
+		boundedKill(cl)
 		return nil, nil, c, fmt.Errorf("%s: %v", what, e)
 	}
 
@@ -274,7 +274,7 @@ func runOneLeftovers(c loCase) (sx.V, sx.V, loCase, error) {
 	plugSocks := newNames(before, all())
 
 	time.Sleep(50 * time.Millisecond)
-	cl.Kill()
+	boundedKill(cl)
 	if b, _ := os.ReadFile(marker); string(b) != "clean-exit" {
 		return nil, nil, c, fmt.Errorf("the plugin did not exit gracefully")
 	}
